@@ -453,6 +453,22 @@ def eval_unit(unit, acc, base):
         acc.check("cache-transparent", _eq(b, ref[i][0]) and _eq(a, ref[i][1]), size, unit,
                   {"step": "utc-after-zoned-queries", "t": INSTANT_STR[i]}, (b, a), ref[i])
 
+    # the data under a path is REFRESHED between two sources built with identical arguments: the second one answers from
+    # the file it loaded itself (no answers shared between objects that merely look alike)
+    dF = _write_dir(udir, "F", {"A": csv_text(rows, lat)})
+    sF1 = _source(dF, adjust)
+    _query_all(sF1, "EQ:A", lat)
+    alt_rows = make_rows("ALT", days, masks)
+    with open(os.path.join(dF, "A.csv"), "w") as fh:
+        fh.write(csv_text(alt_rows, lat))
+    sF2 = _source(dF, adjust)
+    alt_spec = [spec_price(alt_rows, adjust, t, lat) for t in INSTANTS]
+    got2 = _query_all(sF2, "EQ:A", lat)
+    for i in range(NI):
+        exp = alt_spec[i][0]
+        acc.check("cache-transparent", _eq(got2[i][0], exp) and _eq(got2[i][1], exp), size, unit,
+                  {"step": "same-arguments-after-the-file-was-rewritten", "t": INSTANT_STR[i]}, got2[i], (exp, exp))
+
     # a FRESH source on the same directory whose first pass is DESCENDING must give the answers of the ascending first
     # pass of sA: an answer may not depend on which queries the object answered before (memo with a coarser key than the query)
     sF = _source(dA, adjust)
